@@ -162,7 +162,7 @@ def _execute(src: str, n: int, tape: dict, opts: dict):
             if isinstance(value, str) and value.startswith("@@DUMP"):
                 emit("SER", "str", value)
                 for i, l in enumerate(lcds):
-                    emit("LCD", i, l.dump().split("\n"))
+                    emit("LCD", i, l.dump().split("\n"), (int(getattr(l, "brightness_level", 255)) if getattr(l, "backlight_on", True) else 0))
                 return value
             tname = type(value).__name__
             emit("SER", tname, value if isinstance(value, (int, float, str, bool)) else repr(value))
